@@ -207,6 +207,7 @@ def run(case, ctx):
     torus = tuple(bool(v) for v in rng.integers(0, 2, size=D))
     key = {**{k: case[k] for k in ("T", "p", "f", "dt", "s")}, "D": D, "ds": ds, "dyn": dyn_sig, "const": const_sig, "nb": nb, "layout": case.get("layout", 0)}
     viols, evals = [], 0
+    oob = [0]
     _mon.take()
     try:
         ii, oo = data.time_series_idxs(p, f, dt, T - s)
@@ -225,6 +226,14 @@ def run(case, ctx):
         const0 = geom.MultiImage({t: jnp.asarray(v) for t, v in trajs[0][1].items()}, D, torus)
         x1, y1 = data.times_series_to_multi_images(dyn0, const0, T, p, f, s, dt, ds)
         evals += 1
+        # sanitizer-style diagnostic: JAX clamps out-of-range gathers silently; checkify makes them observable
+        if case["i"] % 4 == 0:
+            from jax.experimental import checkify
+
+            err, _ = checkify.checkify(lambda a, b: data.times_series_to_multi_images.__wrapped__(a, b, T, p, f, s, dt, ds), errors=checkify.index_checks)(dyn0, const0)
+            oob[0] += 1
+            if err.get() is not None:
+                viols.append(viol("window-out-of-bounds-gather", f"checkify: {str(err.get())[:200]}; {key}"))
         dynB = geom.MultiImage({t: jnp.stack([jnp.asarray(tr[0][t]) for tr in trajs]) for t in trajs[0][0]}, D, torus)
         constB = geom.MultiImage({t: jnp.stack([jnp.asarray(tr[1][t]) for tr in trajs]) for t in trajs[0][1]}, D, torus)
         xb, yb = data.batch_time_series(dynB, constB, T, p, f, s, dt, ds)
@@ -240,7 +249,7 @@ def run(case, ctx):
         viols.append(viol(f"windowing-exception-{type(e).__name__}", f"{type(e).__name__}: {str(e)[:200]}; {key}; {traceback.format_exc()[-300:]}"))
     viols += _mon.take()
     nontrivial = dt > 1 or s > 0 or f > 1
-    return result(key, viols, nontrivial, evals=evals, obs={"monitored_returns": evals},
+    return result(key, viols, nontrivial, evals=evals, obs={"monitored_returns": evals, "checkify_index_checked_calls": oob[0]},
                   hist={"D": D, "downsample": ds, "dt": dt, "skip": s, "past": p, "future": f, "const_types": len(const_sig), "batch": nb}, sample={"key": key})
 
 
